@@ -7,7 +7,8 @@ Model driver for C02. One case = one history on a fresh Directory volume:
   model's skeleton)
   seed:<B>:intact|corrupt|trash     environment: plant a copy of body B
   tick                              environment: all timestamps old, all trash deadlines expired
-  put:<B>:<mode>                    PUT through the router          mode = run | k<i> | c<i>
+  put:<B>:<mode>                    PUT through the router          mode = run | k<i> | c<i> | m<j>x<chunk>
+                                    (m: context cancelled when WriteBlock has read j chunks of <chunk> bytes from the pipe)
   wb:<B>:<chunk>:<rd>:<limit>:<mode>  WriteBlock with a scripted reader; rd = eof | e<j> | x<j>
   touch:<B>:<mode>  del:<B>:<lt>:<mode>  untrash:<B>:<mode>  empty:<mode>      mode = run | k<i>
 
@@ -51,11 +52,19 @@ def parseBody (s : String) : Option Body :=
 
 inductive Mode where
   | run | kill (i : Nat) | cancel (i : Nat)
+  | mid (j chunk : Nat)     -- cancel when WriteBlock asks for more after j chunks of `chunk` bytes
 
 def parseMode (s : String) : Option Mode :=
   if s == "run" then some .run
   else if s.startsWith "k" then (s.drop 1).toNat?.map .kill
   else if s.startsWith "c" then (s.drop 1).toNat?.map .cancel
+  else if s.startsWith "m" then
+    match (s.drop 1).toString.splitOn "x" with
+    | [a, b] =>
+      match a.toNat?, b.toNat? with
+      | some j, some c => if c == 0 then none else some (.mid j c)
+      | _, _ => none
+    | _ => none
   else none
 
 structure St where
@@ -169,31 +178,46 @@ def stepOp (st : St) (op : String) (last : Bool) : Option (List (St × Option St
     let st := st.note b
     let st1 := { st with sfx := st.sfx + 1 }
     let chunks := if b.data.isEmpty then [] else [b.data]
-    let mk (attempts : List WBIn) (cancelled : Bool) : List Ev × Resp :=
-      handlePut (hashOf st) st.fs ⟨b.h, b.data, nowT, none, attempts, cancelled⟩
+    let mk (attempts : List WBIn) (cancelled cmpCancelled : Bool) : List Ev × Resp :=
+      handlePut (hashOf st) st.fs ⟨b.h, b.data, nowT, none, attempts, cancelled, cmpCancelled⟩
     let code : Resp → String
       | .ok200 => "200" | .badRequest => "400" | .hashMismatch => "422" | .collision => "500"
       | .disconnect => "503" | .fail => "500"
-    let full := mk [wbIn st b chunks .eof .none] false
+    let full := mk [wbIn st b chunks .eof .none] false false
+    let out (r : List Ev × Resp) (mark : Bool) : St × Option String :=
+      let (st2, _, pts) := execMode st1 r.1 .run
+      -- "C": the moment the reader gate cancelled, right after the io.Copy point
+      let pts := if mark then pts.flatMap (fun p => if p == "WriteBlock:io.Copy:2" then [p, "C"] else [p]) else pts
+      (st2, some (seg st2 (code r.2) pts))
+    let writes := (allPoints full.1).any (fun p => p.startsWith "WriteBlock:")
     match mode with
     | .cancel i =>
       -- where in the uncancelled run does the i-th point lie?
       match killPrefix full.1 i with
-      | (none, _) => let (st2, _, pts) := execMode st1 full.1 .run; some [(st2, seg st2 (code full.2) pts)]
+      | (none, _) => some [out full false]
       | (some _, pts) =>
         let lastPt := pts.getLast?.getD ""
-        if lastPt.startsWith "Touch:" then
-          let (st2, _, pts) := execMode st1 full.1 .run; some [(st2, seg st2 (code full.2) pts)]
+        if lastPt.startsWith "stat:" || lastPt.startsWith "getFunc:" then
+          -- the context ends during Compare: nothing is touched or written, 503
+          some [out (mk [] true true) false]
+        else if lastPt.startsWith "Touch:" then some [out full false]
         else
-          let beforeCopyEnd := pts.length ≤ 3 && lastPt.startsWith "WriteBlock:"
-          let eofRun := mk [wbIn st b chunks .eof .none] true
-          let errRun := mk [wbIn st b [] .err .none] true
-          let out (r : List Ev × Resp) :=
-            let (st2, _, pts) := execMode st1 r.1 .run; (st2, some (seg st2 (code r.2) pts))
-          if !beforeCopyEnd then some [out eofRun]
-          else if !b.data.isEmpty then some [out errRun]
-          else if last then some [out eofRun, out errRun]
-          else some [out eofRun]
+          let beforeCopyEnd := (pts.filter (fun p => p.startsWith "WriteBlock:")).length ≤ 3
+          let eofRun := mk [wbIn st b chunks .eof .none] true false
+          let errRun := mk [wbIn st b [] .err .none] true false
+          if !beforeCopyEnd then some [out eofRun false]
+          else if !b.data.isEmpty then some [out errRun false]
+          else if last then some [out eofRun false, out errRun false]
+          else some [out eofRun false]
+    | .mid j chunk =>
+      if !writes then some [out full false] else
+      let all := splitChunks chunk b.data
+      if j > all.length then some [out full false]
+      else if j < all.length then some [out (mk [wbIn st b (all.take j) .err .none] true false) true]
+      else
+        let eofRun := mk [wbIn st b all .eof .none] true false
+        let errRun := mk [wbIn st b all .err .none] true false
+        if last then some [out eofRun true, out errRun true] else some [out eofRun true]
     | m =>
       let (st2, killed, pts) := execMode st1 full.1 m
       some [(st2, seg st2 (if killed then "killed" else code full.2) pts)]
@@ -289,7 +313,7 @@ def runHist (ops : List String) : Option (List String) :=
 
 /-- every point the instrumenter is expected to create, in source order of unix_volume.go -/
 def allPointIds : List String :=
-  [Fn.touch, Fn.writeBlock, Fn.trash, Fn.untrash, Fn.emptyTrash].flatMap (fun fn =>
+  [Fn.touch, Fn.getFunc, Fn.stat, Fn.writeBlock, Fn.trash, Fn.untrash, Fn.emptyTrash].flatMap (fun fn =>
     (List.range (skeleton fn).length).map (fun i => Point.id ⟨fn, i⟩))
 
 def step (line : String) : String :=
